@@ -59,7 +59,11 @@ void commodity_t::add_price(const datetime_t& date, const amount_t& price,
 
   pool().commodity_price_history.add_price(referent(), date, price);
 
-  base->price_map.clear();    // a price was added, invalid the map
+  // a price was added: invalidate the memoized lookups of every commodity,
+  // since a conversion from any of them may go through the new price
+  foreach (commodity_pool_t::commodities_map::value_type& pair,
+           pool().commodities)
+    pair.second->base->price_map.clear();
 }
 
 void commodity_t::remove_price(const datetime_t& date, commodity_t& commodity)
@@ -68,7 +72,10 @@ void commodity_t::remove_price(const datetime_t& date, commodity_t& commodity)
 
   DEBUG("history.find", "Removing price: " << symbol() << " on " << date);
 
-  base->price_map.clear();  // a price was added, invalid the map
+  // a price was removed: invalidate the memoized lookups of every commodity
+  foreach (commodity_pool_t::commodities_map::value_type& pair,
+           pool().commodities)
+    pair.second->base->price_map.clear();
 }
 
 void commodity_t::map_prices(function<void(datetime_t, const amount_t&)> fn,
